@@ -128,6 +128,33 @@ def check_case(case, acc):
             wo = TPMetricsAph().get_value(DynamicObjectWithPerceptionResult(e, g, transforms=G.transforms(ego2)))
             if abs(wo - w) > 1e-9:
                 bad("aph-weight:depends-on-ego-pose", "the same map-frame pair weighs %.9f with the transforms of ego pose %s and %.9f with those of %s" % (wo, ego2, w, ego))
+    # the weight and the yaw error are functions of the two orientations: boxes wider than long and polygon-shaped objects (which
+    # carry an orientation like any other object) get the same values as the 2 x 4 boxes
+    if r == 0.0 and p == 0.0 and not case["neg_g"] and not case["neg_e"]:
+        from shapely.geometry import Polygon as _Poly
+        from perception_eval.common.shape import Shape as _Shape, ShapeType as _ST
+        variants = []
+        ew = G.mk3d(dict(x=5.0, y=1.0, yaw=ye, qneg=case["neg_e"], label="CAR", uuid="e", score=0.9, size=[4.0, 2.0, 1.5]), fr, ego)
+        variants.append(("estimate wider than long", ew, g))
+        gw = G.mk3d(dict(x=5.2, y=1.1, yaw=yg, label="CAR", uuid="g", size=[3.0, 1.0, 1.5]), fr, ego)
+        variants.append(("ground truth wider than long", e, gw))
+        foot = _Poly([(1.5, 1.0, 0.0), (-1.5, 1.0, 0.0), (-2.0, 0.0, 0.0), (-1.5, -1.0, 0.0), (1.5, -1.0, 0.0)])
+        ep = G.mk3d(dict(x=5.0, y=1.0, yaw=ye, qneg=case["neg_e"], label="CAR", uuid="e", score=0.9), fr, ego)
+        ep.state.shape = _Shape(_ST.POLYGON, (2.0, 3.5, 1.5), foot)
+        gp = G.mk3d(dict(x=5.2, y=1.1, yaw=yg, label="CAR", uuid="g"), fr, ego)
+        gp.state.shape = _Shape(_ST.POLYGON, (2.0, 3.5, 1.5), foot)
+        variants += [("polygon estimate", ep, g), ("polygon ground truth", e, gp), ("two polygons", ep, gp)]
+        for nm, ev, gv in variants:
+            acc.exec(2)
+            try:
+                rv = DynamicObjectWithPerceptionResult(ev, gv, transforms=tf)
+                wv, yv = TPMetricsAph().get_value(rv), rv.heading_error[2]
+            except Exception as ex:  # noqa
+                bad("shape:raises", "%s: %r" % (nm, ex))
+                continue
+            if abs(wv - w) > 1e-9 or abs(abs(yv) - abs(res.heading_error[2])) > 1e-9:
+                bad("shape-dependence:" + ("polygon" if "polygon" in nm else "wide-box"), "%s: heading weight %.9f / yaw error %.9f, the 2 x 4 boxes with the same orientations give %.9f / %.9f" % (
+                    nm, wv, yv, w, res.heading_error[2]))
     # label policies under which an estimate of another class is a TP for this ground truth: the heading weight is still that of the
     # two physical orientations
     if r == 0.0 and p == 0.0 and not case["neg_e"]:
